@@ -7,7 +7,7 @@ from .common import *
 # token indices (0 = op) holding hex payloads / payload lists, per op: used by the shrinker
 PAYLOAD = {"kg": [2], "mg": [3], "kmg": [3], "oligo": [3], "covrow": [6], "cgr": [2], "ocgr": [4],
            "ofile": [10], "osched": [6], "cgrfile": [5], "ocgrfile": [7], "ctr": [6], "cov": [9, 10], "s2m": [5], "m2s": [5], "read": [], "cli": [4, 5], "hist": [],
-           "py:kg": [2], "py:mg": [3], "py:oligo": [3], "py:cgr": [2], "hooks": []}
+           "py:kg": [2], "py:mg": [3], "py:oligo": [3], "py:cgr": [2], "hooks": [], "csched": []}
 
 BASE_TRUSTED = [
     "Coq 8.16.1 kernel incl. vm_compute (no native_compute, no kernel flags, full .vo build)",
@@ -119,6 +119,11 @@ def gen_C03(r, tier):
     cases = []
     for k in range(1, kmax + 1):
         cases.append("posmap %d" % k); cases.append("header %d" % k)
+    # the header line of the CLI for every k it accepts and every delimiter preset, both writers
+    for k in range(3, 8):
+        for preset in ("csv", "tsv", "spc", None):
+            for c in (None, 1):
+                cases.append(cli_case("oligo", {"k": k, "H": 1, "p": preset, "c": c}, "fa", [b"ACGTNACGTTGCA"]))
     return cases
 
 
@@ -426,6 +431,24 @@ def gen_C07(r, tier):
         # ceilings from a few bases per chunk (dozens of chunks and partitions) to a single chunk
         memf = r.pick(["6", "1", "0.000001", "0.0000001", "0.00000005", "0.00000001"])
         cases.append("ctr %d %d %s %d %s %s" % (k, pick_threads(r), memf, r.below(2), cont, hxlist(recs)))
+    # controlled schedules through the hooks: CHECK / TAKE / INC / ADD / EXIT traces and the content of every chunk pass
+    def csched_case(W, recs, k, limit, prefix):
+        kmers = sum(max(0, len(x) - k + 1) for x in recs)
+        rounds = 2 * (kmers + 5 * len(recs) + 8)
+        sched = prefix + [i for _ in range(rounds) for i in range(W)]
+        return "csched %d %d %d %s %s" % (k, W, limit, ",".join(map(str, sched)), hxlist(recs))
+    for _ in range({"quick": 150, "thorough": 1500}[tier]):
+        W = 1 + r.below(3); R = r.below(6); k = r.pick([1, 2, 3])
+        recs = [gen_file_seq(r, k, 12) for _ in range(R)]
+        limit = r.pick([0, 1, 5, 10, 20, 1000])
+        prefix = [r.below(W) for _ in range(r.below(60))]
+        cases.append(csched_case(W, recs, k, limit, prefix))
+    if tier == "thorough":
+        import itertools
+        for W, R in ((2, 2), (2, 3)):
+            recs = [bytes(r.choices(NUC, k=3)) for _ in range(R)]
+            for wd in itertools.product(range(W), repeat=10):
+                cases.append(csched_case(W, recs, 2, 3, list(wd)))
     return cases
 
 
@@ -900,8 +923,8 @@ PROPS = {
     "C02": dict(gen=gen_C02, needs=["harness"], extra=extra_C02,
                 rule="rev_comp and numeric_to_kmer on every code x < 4^k for k <= 7 (quick) / 9 (thorough), random codes for k up to 31 including 0, 4^k-1 and palindromes code(h ++ rc h); the k-mer iterator on seeded sequences and on their reverse complements; non-trivial = non-empty result; relations checked on the implementation's outputs: involution, stream reversal with swapped strands, equal canonical multisets",
                 assumptions=["codes >= 4^k are never generated (unspecified)", "bytes 0x00-0x03 are never generated"]),
-    "C03": dict(gen=gen_C03, needs=["harness"],
-                rule="kmer_pos_maps(k) and the header for every k in 1..=7 (quick) / 1..=8 (thorough), all 4^k entries enumerated (entries of non-canonical codes are not compared: unspecified); one case per (op, k), each non-trivial",
+    "C03": dict(gen=gen_C03, needs=["harness", "cli"], sample_filter=lambda c: not c.startswith("cli") or " k=3" in c or "k=3," in c,
+                rule="kmer_pos_maps(k) and the header for every k in 1..=7 (quick) / 1..=8 (thorough), all 4^k entries enumerated (entries of non-canonical codes are not compared: unspecified); one case per (op, k), each non-trivial; plus the first line written by `kmertools comp oligo -H` for k in 3..=7 x {csv,tsv,spc,default} x {mapped, batch writer}",
                 assumptions=[], exhaustive=True),
     "C04": dict(gen=gen_C04, needs=["harness"], extra=extra_C04, sample_filter=lambda c: int(c.split(" ")[1]) <= 6 and len(c) < 900,
                 rule="seeded records (homopolymers, low-complexity repeats, palindromic h++rc(h), all-ambiguous, mixed with planted ambiguous bytes; boundary lengths 0,1,k-1,k,k+1,2k) for k in 1..=8, raw and normalised, each also as its reverse complement, lower case, U for T and both; vector entries compared as binary64 bit patterns with the Flocq model; non-trivial = some entry non-zero; relations on the implementation: the four respellings give the identical row",
@@ -927,7 +950,7 @@ PROPS = {
                 assumptions=["the DEFLATE codec itself is not modelled (only the member structure)", "bio 2.0.3's parsers are third-party code, modelled from their source and validated here",
                              "non-UTF-8 input is outside 'well-formed' and never generated"]),
     "C07": dict(gen=gen_C07, needs=["harness"], sample_limit={"quick": 32, "thorough": 96}, sample_maxlen=700,
-                rule="file level: seeded record lists (incl. highly repetitive ones) x k {1,2,3,5,10,15,21,31} x threads x memory ceilings from 6 GB down to 1e-8 GB (one chunk to dozens of chunks and partitions) x acgt x container; the sorted lines of kmers.counts and the number of surviving temp files are compared with the model (partitioned counting + merge) and the spec (multiset of canonical k-mers); non-trivial = at least one k-mer counted",
+                rule="file level: seeded record lists (incl. highly repetitive ones) x k {1,2,3,5,10,15,21,31} x threads x memory ceilings from 6 GB down to 1e-8 GB (one chunk to dozens of chunks and partitions) x acgt x container; the sorted lines of kmers.counts and the number of surviving temp files are compared with the model (partitioned counting + merge) and the spec (multiset of canonical k-mers); then controlled-scheduler replays of count() through the hooks (W<=3 workers, R<=5 records, limits 0..1000 so that runs take 1..R+1 chunk passes; random schedule prefix + round-robin tail): the logged CHECK/TAKE/INC/ADD/EXIT trace and the content of every chunk pass must equal the Coq schedule model's; thorough enumerates all 2^10 schedule prefixes for (W,R) in {(2,2),(2,3)}; non-trivial = at least one k-mer counted",
                 assumptions=["scc entry().and_modify().or_insert() and AtomicU64 operations are atomic steps", "total windows < 2^32 (u32 counts)"]),
     "C10": dict(gen=gen_C10, needs=["harness"], sample_limit={"quick": 32, "thorough": 96}, sample_maxlen=700, extra=extra_C10,
                 rule="file level: seeded record lists (shared minimisers, reads starting with N, reads shorter than m, empty reads) x m {1,2,3,5,7,10,15,28} x w = 0 or m+1..m+20 x threads x container; s2m lines compared as a set, m2s lines as a set with lists as multisets, both against model and spec; on the implementation m2s must be the exact inversion of s2m; non-trivial = at least one line",
